@@ -469,6 +469,13 @@ class RuntimeContext:
             errors.extend(self.tmp_errors)
         raise exc.CollectedParseError(errors=errors)
 
+    def clear(self):
+        # forget what an earlier parse recorded in this context
+        self.errors = []
+        self.tmp_errors = []
+        self.warnings = []
+        self.excluded_fields = set()
+
     def collect_tmp_error(self, e: Exception):
         # the error does not need to raise right now (like a Union condition)
         # we will collect and wait for upper layer to decide when to raise
